@@ -128,7 +128,7 @@ def run(rep, tier):
     wd = work_dir("C16", "run", clean=True)      # patches of validated repairs live in .work/C16/*.diff
     cfg = "C16_LinArith_small.cfg" if quick else "C16_LinArith_deep.cfg"
     cls = ("all multisets of 1..2 factoids 0 <= a*x1 + b*x2 + c, a,b in -2..2, c in %s; all multisets of 3 factoids with %s"
-           % (("-2..2", "a in {-2,0,2}, b,c in -1..1") if quick else ("-3..3", "a,b in -2..2, c in -1..1")))
+           % (("-2..2", "a in {-2,0,2}, b in {-1,1}, c in -1..1") if quick else ("-3..3", "a,b in -2..2, c in -1..1")))
     rep.rule = ("TLC explores " + cls + " (every system a state; reference Fourier-Motzkin / real-shadow+GCD / dark-shadow "
                 "elimination in every variable order, invariants judged by brute force over integer boxes and the rational grid "
                 "k/d, d in {1,2,3,4,5,6,8}, |k| <= 12). Every system is replayed through omega.solve_matrix (both row orders) and "
@@ -216,7 +216,9 @@ def run(rep, tier):
             if e["proof"]["accepted"]:
                 d["proofs_accepted"] = d.get("proofs_accepted", 0) + 1
     rep.notes["verdicts_by_procedure"] = procs
-    require(tr["vectors"]["events"] >= 4 * rep.notes["vectors"] - 200, "C16: not every emitted system was replayed")
+    replayed = {json.dumps(e["sys"]) for e in res["vectors"][0] if e["proc"] == "omega" and e["tag"] == "v"}
+    require(len(replayed) == rep.notes["vectors"] and tr["vectors"]["events"] >= 3.5 * rep.notes["vectors"],
+            "C16: not every emitted system was replayed (%d of %d)" % (len(replayed), rep.notes["vectors"]))
     require(tr["vectors"]["nontrivial"] >= 0.6 * tr["vectors"]["events"] and tr["random"]["nontrivial"] >= 0.5 * tr["random"]["events"],
             "C16: too few examined events (vacuity guard)")
     for proc, k, mn in (("omega", "UNSAT", 100), ("omega", "SAT", 1000), ("simplex", "UNSAT", 100), ("simplex", "SAT", 1000),
